@@ -121,9 +121,10 @@ func zinterKeyFunc(cmd []string) (internal.KeyExtractionFuncResult, error) {
 		}, nil
 	}
 	if endIdx >= 1 {
+		// endIdx is relative to cmd[1:]: the keys are cmd[1] ... cmd[endIdx].
 		return internal.KeyExtractionFuncResult{
 			Channels:  make([]string, 0),
-			ReadKeys:  cmd[1:endIdx],
+			ReadKeys:  cmd[1 : endIdx+1],
 			WriteKeys: make([]string, 0),
 		}, nil
 	}
@@ -347,8 +348,9 @@ func zunionKeyFunc(cmd []string) (internal.KeyExtractionFuncResult, error) {
 	}
 	if endIdx >= 1 {
 		return internal.KeyExtractionFuncResult{
-			Channels:  make([]string, 0),
-			ReadKeys:  cmd[1:endIdx],
+			Channels: make([]string, 0),
+			// endIdx is relative to cmd[1:]: the keys are cmd[1] ... cmd[endIdx].
+			ReadKeys:  cmd[1 : endIdx+1],
 			WriteKeys: cmd[1:endIdx],
 		}, nil
 	}
